@@ -1,6 +1,7 @@
 import Model.Cti
 import Model.CtiTables
 import Model.CtiContainer
+import Model.CtiImplSig
 import Gen.CtiBasic
 import Gen.CtiSigs
 import Proofs.Cti
@@ -207,6 +208,27 @@ theorem cti_container_spec_partial :
 theorem container_coverage :
     (Gen.CtiSigs.arrayRules ++ Gen.CtiSigs.sliceRules ++ Gen.CtiSigs.mapRules ++ Gen.CtiSigs.chanRules).all
       (fun r => Gen.CtiSigs.implCases.any (fun c => c.1 == "\"" ++ r.name ++ "\"")) = true := by decide +kernel
+
+def rulesOf : CtiImplSig.CK → List CtiSig.Rule
+  | .array => Gen.CtiSigs.arrayRules
+  | .slice | .byteSlice => Gen.CtiSigs.sliceRules
+  | .map => Gen.CtiSigs.mapRules
+  | .chanBoth | .chanRecv | .chanSend => Gen.CtiSigs.chanRules
+
+theorem container_sigs_checked :
+    CtiImplSig.CK.all.all (fun ck => CtiImplSig.sigsOk ck (rulesOf ck) Gen.CtiSigs.implSigs) = true := by decide +kernel
+
+/-- **container_sigs_agree.**  For every shape of unnamed container type (array, slice, byte slice,
+    map, bidirectional / receive-only / send-only channel) and EVERY element and key type: each
+    method the type checker declares (`go/types make*Methods`, regenerated) is implemented in
+    `addTypeMethodsCTI` with a `reflect.FuncOf` signature (regenerated symbolically) equal to the
+    declared one — receiver (pointer to the array for arrays), parameters, results, variadic flag.
+    So a call that type-checks never reaches `reflect.Value.Call` with arguments of other types. -/
+theorem container_sigs_agree (ck : CtiImplSig.CK) :
+    CtiImplSig.sigsOk ck (rulesOf ck) Gen.CtiSigs.implSigs = true := by
+  have h := container_sigs_checked
+  rw [List.all_eq_true] at h
+  exact h ck (by cases ck <;> simp [CtiImplSig.CK.all])
 
 /-! ## non-vacuity -/
 
